@@ -26,12 +26,13 @@ def wait_designs(tier):
     for via in ("std", "waiter"):
         for n in range(1, 6 if tier == "quick" else 9):
             # reached after a statement; two waits in sequence; inside a loop; after an await
-            add(f"wait_{via}_mid_{n}", [m(1), waitfor(n, via=via), m(2)])
-            add(f"wait_{via}_twice_{n}", [m(1), waitfor(n, via=via), m(2), waitfor(max(1, n - 1), via=via), m(3)])
-            add(f"wait_{via}_after_await_{n}", [await_(A), m(1), waitfor(n, via=via), m(2)])
-            add(f"wait_{via}_loop_{n}", [while_(TRUE, [assign("push", "p", TRUE), waitfor(n, via=via)])])
+            wm = max(7, n)      # the Waiter's max_duration must cover the longest wait
+            add(f"wait_{via}_mid_{n}", [m(1), waitfor(n, via=via), m(2)], waiter_max=wm)
+            add(f"wait_{via}_twice_{n}", [m(1), waitfor(n, via=via), m(2), waitfor(max(1, n - 1), via=via), m(3)], waiter_max=wm)
+            add(f"wait_{via}_after_await_{n}", [await_(A), m(1), waitfor(n, via=via), m(2)], waiter_max=wm)
+            add(f"wait_{via}_loop_{n}", [while_(TRUE, [assign("push", "p", TRUE), waitfor(n, via=via)])], waiter_max=wm)
             # first statement of the process
-            add(f"wait_{via}_first_{n}", [waitfor(n, via=via), m(1), await_(A), m(2)])
+            add(f"wait_{via}_first_{n}", [waitfor(n, via=via), m(1), await_(A), m(2)], waiter_max=wm)
         # run-time duration (all values of a 3-bit input), with and without allow_zero
         add(f"wait_{via}_runtime", [m(1), await_(bin_("ne", ref("n"), pint(0))), waitfor(ref("n"), via=via), m(2)], [("n", U3)], 7)
         add(f"wait_{via}_runtime_zero", [m(1), waitfor(ref("n"), allow_zero=True, via=via), m(2), await_(A)], [("n", U3)], 7)
